@@ -18,7 +18,7 @@ PID = "C06"
 EXE = "cgv-c06agg"
 HARNESS = "c06agg"
 BK = "bookkeeping: "
-RULE = ("programs of ≤ 12 calls (set/insert/delete/lock with options/aggressive-locking start/retry/cancel/done) of one client with a contender taking pessimistic locks, third parties committing newer versions (write conflict, key exists, deadlock, lock-wait time-out), region errors / splits / leader moves in between, no request lost; after the final call and the drain of the background work `audit locks` lists every lock left in the store; agg-retry family: fair (aggressive) locking retried after locked-with-conflict with old / conflict / fresh for-update ts, overlapping or disjoint keys, ended by done / cancel / directly × commit / rollback; batches family: one LockKeys call split into several requests inside one region (≈1 KB keys or a lowered batch size), a later batch failing with write conflict or key exists; agg-expire family: a retry after the previous attempt's locks expired (stalled ttl manager, foreign writer in between); oracles `audit locks`, `audit held`; relock family (a failing LockKeys over held + new keys, statement retry, `audit held` after every call, an intruder probing a held key); round 3: agg-retry with options changing between attempts and the transaction ended after the sanity error; early-fail family (PD outage `tsofail` / failing schema-lease checker at Commit of a pessimistic transaction, control runs without the failure). "
+RULE = ("programs of ≤ 12 calls (set/insert/delete/lock with options/aggressive-locking start/retry/cancel/done) of one client with a contender taking pessimistic locks, third parties committing newer versions (write conflict, key exists, deadlock, lock-wait time-out), region errors / splits / leader moves in between, no request lost; after the final call and the drain of the background work `audit locks` lists every lock left in the store; agg-retry family: fair (aggressive) locking retried after locked-with-conflict with old / conflict / fresh for-update ts, overlapping or disjoint keys, ended by done / cancel / directly × commit / rollback; batches family: one LockKeys call split into several requests inside one region (≈1 KB keys or a lowered batch size), a later batch failing with write conflict or key exists; agg-expire family: a retry after the previous attempt's locks expired (stalled ttl manager, foreign writer in between); oracles `audit locks`, `audit held`; relock family (a failing LockKeys over held + new keys, statement retry, `audit held` after every call, an intruder probing a held key); round 3: agg-retry with options changing between attempts and the transaction ended after the sanity error; early-fail family (PD outage `tsofail` / failing schema-lease checker at Commit of a pessimistic transaction, control runs without the failure); round 4: commit-split family (3–5 keys in one or two regions, one or two splits BETWEEN two of the keys attached to the n-th commit request — incl. the background secondaries' — or prewrite, drain, `audit locks`). "
         "BOOKKEEPING CORRESPONDENCE (second part): stateful cases (`# case n`, `reset v=<keys with a committed value>`) over 2–5 keys of one pessimistic KVTxn on mocktikv: "
         "ops start / retry / cancel / done / rollback / commit / pne k (presume-key-not-exists flag of an INSERT) / lock <keys> <options r c e n> — after every op the implementation line "
         "(currentLockedKeys and lastRetryUnnecessaryLocks with HasReturnValue/HasCheckExistence/Exists/LockedWithConflictTS per key, membuffer keys flagged locked with their value-exists flag, lockedCnt, "
